@@ -266,7 +266,8 @@ class MemoryFileSystem(FileSystem):
     for x in self._internal_path(path).split('/'):
       if not x:
         continue
-      if x not in current:
+      if not isinstance(current, dict) or x not in current:
+        # Nothing lives below a file.
         return None
       current = current[x]
     return current
